@@ -323,7 +323,7 @@ fn pipeline_factors(text: &str, out: &mut Out) -> String {
 fn san(s: &str, n: usize) -> String {
     let mut o = String::new();
     let mut last_hash = false;
-    for c in s.chars().take(n) {
+    for c in s.chars() {
         if c.is_ascii_digit() {
             if !last_hash {
                 o.push('#');
@@ -334,7 +334,8 @@ fn san(s: &str, n: usize) -> String {
             last_hash = false;
         }
     }
-    o
+    // truncate AFTER sanitizing: the raw text has run-dependent lengths (thread ids)
+    o.chars().take(n).collect()
 }
 
 pub fn judge_cli(o: &cli::CliOut, what: &str, out: &mut Out) {
@@ -497,10 +498,11 @@ pub fn run(ctx: &Ctx) -> i32 {
     merge(&shared, "(numeric options / command-line leg)", 0, 0, (0, 0), &mut out, None);
     let exits: Vec<u64> = CLI_EXITS.iter().map(|a| a.load(Ordering::Relaxed)).collect();
     let ncls = classes.lock().unwrap().len();
+    // replays always include the out-of-process leg
     finish(
         ctx,
         &shared,
-        &light,
+        &heavy,
         Finish {
             level: "fault_enumeration",
             rule: "base files = shipped component files + 8 synthesized files covering every component kind, legacy lines, metadata, output-before-electricity, auxiliaries only, two demand lines + shipped and synthesized factor files; faults: line {delete, duplicate, swap, truncate after}, field {delete, duplicate, swap, truncate after, replace by each of 46 menu tokens}, byte {truncate at / insert one of 7 characters at every offset} (small bases); deviation bound 1 (quick) / 2 (thorough) + token soups; every file through the in-process pipeline under catch_unwind, the real binary on every file of the small bases and on one representative per outcome class; numeric and environment options; non-trivial = file not accepted".into(),
